@@ -34,6 +34,11 @@ type half struct {
 	waiting    bool // reader is blocked in Read with an empty buffer
 	readerDone bool // the goroutine that owns the reading end has returned
 	frames     int
+	// hold: the next Read that empties the buffer does not return until released (models a
+	// reader goroutine that is descheduled right after its read completed)
+	holdArmed   bool
+	holdReached chan struct{}
+	holdRelease chan struct{}
 }
 
 func newHalf() *half { h := &half{}; h.cond = sync.NewCond(&h.mu); return h }
@@ -71,7 +76,21 @@ func (h *half) read(b []byte) (int, error) {
 		h.chunks = h.chunks[1:]
 		h.off = 0
 	}
+	if h.holdArmed && len(h.chunks) == 0 {
+		h.holdArmed = false
+		reached, release := h.holdReached, h.holdRelease
+		h.mu.Unlock()
+		close(reached)
+		<-release
+		h.mu.Lock()
+	}
 	return n, nil
+}
+
+func (h *half) armHold() {
+	h.mu.Lock()
+	h.holdArmed, h.holdReached, h.holdRelease = true, make(chan struct{}), make(chan struct{})
+	h.mu.Unlock()
 }
 
 func (h *half) close() {
